@@ -46,11 +46,13 @@ func c19Response(state int, tag string) any {
 		return J{"$ref": refs[len(tag)%len(refs)]}
 	case 4:
 		return J{"description": "", "headers": J{"X-A": J{"type": "string"}}}
+	case 5:
+		return J{"description": " \t", "schema": J{"type": "integer"}} // not empty: must be left alone
 	}
 	return nil
 }
 
-const c19States = 5
+const c19States = 6
 
 // c19Gen builds one document from INPUT choices.
 func c19Gen(x *mcx.Exec) J {
